@@ -12,6 +12,7 @@ nothing is left in the queues) carry over — and the outcome is decided by the 
 import ToastyVerif.Model.Stage
 import ToastyVerif.Props.C03
 import ToastyVerif.Gen.WalkWorker
+import ToastyVerif.Gen.Plumbing
 
 namespace C19
 open Stage
@@ -252,5 +253,9 @@ example : ∃ s, runE (initE 1 2 [4, 5])
 /-! non-vacuity: the second input cannot be loaded -/
 example : ∃ s, runE (initE 2 2 [4, 5]) [.base (.start 0), .base (.start 1), .base (.put 4), .loadFail] = some s ∧
     s.outcome = some true ∧ s.failed = [] ∧ s.loadFailed = true := ⟨_, rfl, rfl, rfl, rfl⟩
+
+/-- **entry_points**: the call sites through which this property's workflows reach the modelled functions have, in the source as
+it is now, the argument plumbing the model assumes (facts re-extracted on every run, `Gen/Plumbing.lean`) -/
+theorem entry_points : Gen.Plumbing.cli_entrypoint_lets_errors_out = true := by decide
 
 end C19
